@@ -359,7 +359,25 @@ def rule_same(fx, rep, terms):
                 if shape_inc != shape_ini:
                     good, why = False, f"argument shapes differ: incremental {shape_inc} vs from-scratch {shape_ini}"
                 else:
-                    rep.notes.append(f"C15-SAME: `{sb.name}` sums `{want}` through an iterator chain; the visited squares and the guard are not decided for this shape")
+                    # per-kind form: the squares come from the board's piece sets; then every kind's set has to be visited
+                    kinds_m = ("pawns", "knights", "bishops", "rooks", "queens", "king")
+                    called = set()
+                    generic = False
+                    for nm in [sb.name] + [k for k in fx.bodies if k.startswith(sb.name + "::{closure")]:
+                        for bb2, t2 in fx.bodies[nm].calls():
+                            cn2 = norm(callee_name(t2) or "")
+                            if cn2.startswith("chess::board::Board::"):
+                                m2 = cn2.split("::")[-1]
+                                if m2 in kinds_m:
+                                    called.add(m2)
+                                elif m2 in ("piece_at", "pieces_of_kind", "occupancy", "occupancy_for", "pieces"):
+                                    generic = True
+                    if called and not generic and called != set(kinds_m) and "phase" in str(want):
+                        rep.notes.append(f"C15-SAME: `{sb.name}` visits {sorted(called)} only; kinds that contribute nothing to the phase may be skipped - not decided")
+                    elif called and not generic and called != set(kinds_m):
+                        good, why = False, f"the from-scratch sum visits the sets {sorted(called)} only: the {sorted(set(kinds_m) - called)} of both players are left out, so an accumulator seeded from a position lacks their terms while the incremental updates add and remove them"
+                    else:
+                        rep.notes.append(f"C15-SAME: `{sb.name}` sums `{want}` through an iterator chain; the visited squares and the guard are not decided for this shape")
             elif len(tcalls) != 1:
                 good, why = False, f"`{sb.name}` calls the term function `{want}` {len(tcalls)} time(s) (expected once, in its loop)"
             elif others:
@@ -481,6 +499,8 @@ def rule_writers(fx, rep):
 G = "src/chess/game.rs"
 E = "src/engine/eval/mod.rs"
 MUTANTS = [
+    {"name": "from-scratch piece-square sum by per-kind loops without the kings (seed C15-9a)", "expect": "C15-SAME/piece_square_tables",
+     "edits": __import__("shared_mutants").edits_from_patch("seeded/C15-9a/patch.diff")},
     {"name": "castling rook relocated before the History snapshot is taken (seed C15-6a)", "expect": "C15-PAIR/save-stale",
      "edits": [("src/chess/game.rs", "        let maybe_captured_piece = self.board.piece_at(to);\n\n        // Capture the irreversible aspects", "        if mv.is_castling() {\n            if let Some((rook_from, rook_to)) = squares::castle_squares(player, to) {\n                let rook = self.remove_at(rook_from);\n                self.set_at(rook_to, rook);\n            }\n        }\n\n        let maybe_captured_piece = self.board.piece_at(to);\n\n        // Capture the irreversible aspects"),
                ("src/chess/game.rs", "        self.en_passant_target = new_en_passant_target;\n\n        if mv.is_castling() {\n            if let Some((rook_from, rook_to)) = squares::castle_squares(player, to) {\n                let rook = self.remove_at(rook_from);\n                self.set_at(rook_to, rook);\n            }\n        }\n", "        self.en_passant_target = new_en_passant_target;\n")]},
